@@ -84,6 +84,8 @@ def _draw_api(draw, sc):
     if draw(st.integers(0, 2)) == 2:
         sc["api"] = "objects"
         sc["obj_order"] = draw(st.integers(0, 2))
+        if sc["system"] != "toy_bin" and len(sc.get("durations", [])) > 1 and draw(st.booleans()):
+            sc["reuse_x0_array"] = True
 
 
 @st.composite
